@@ -82,6 +82,7 @@ func runC17(c *Ctx) {
 	c.Rule("pool-budget", "amount added to the usage counter is the amount tested against the limit; Put subtracts cap", 2)
 	c.Rule("pool-lockset", "usedTotal only under mtx", 5)
 	c.Rule("request-close-once", "request-scoped Close at most once per path", 1)
+	c.Rule("shard-buffer-released-after-join", "a response set joins its receive goroutine before releasing the shard matcher buffer", 2)
 	p := c.Load("pkg/store", "pkg/store/storepb", "pkg/losertree", "pkg/pool", "pkg/receive/writecapnp", "pkg/receive")
 	if p == nil {
 		return
@@ -435,6 +436,80 @@ func runC17(c *Ctx) {
 			}
 			c.Check(worst <= 1, "request-close-once", relPkg(fn.Pkg.PkgPath)+"."+fn.Name+"#"+o.Name(), p.Pos(o.Pos()), "request-closed-twice",
 				"a path closes the capnp request twice: its pooled symbol table is returned to the pool twice")
+		}
+	}
+
+	// ---- (5) the shard matcher's pooled buffer is used by the response set's receive goroutine
+	// (MatchesZLabels); every Close method that releases it first joins that goroutine — a WaitGroup
+	// Wait or a receive from the done channel — on every path. Otherwise the buffer is back in the pool
+	// while its previous owner still hashes into it and a concurrent request can take it.
+	for _, fn := range p.AllFuncs(true) {
+		if fn.Decl == nil || fn.Decl.Recv == nil || relPkg(fn.Pkg.PkgPath) != "pkg/store" {
+			continue
+		}
+		info := fn.Info()
+		isRelease := func(i *types.Info, call *ast.CallExpr) bool {
+			sel, ok := unparen(call.Fun).(*ast.SelectorExpr)
+			return ok && sel.Sel.Name == "Close" && isNamedPtr(i.TypeOf(sel.X), "storepb", "ShardMatcher")
+		}
+		has := false
+		inspectNoLit(fn.Body(), func(n ast.Node) bool {
+			if call, ok := n.(*ast.CallExpr); ok && isRelease(info, call) {
+				has = true
+			}
+			return true
+		})
+		if !has {
+			continue
+		}
+		// only types whose constructor starts a goroutine: those have something to join
+		recvT := recvTypeName(fn.Decl)
+		hasWorker := false
+		for _, g := range p.AllFuncs(true) {
+			if relPkg(g.Pkg.PkgPath) != "pkg/store" || g.Decl == nil {
+				continue
+			}
+			builds := false
+			ast.Inspect(g.Body(), func(n ast.Node) bool {
+				switch v := n.(type) {
+				case *ast.CompositeLit:
+					if isNamed(g.Info().TypeOf(v), "pkg/store", strings.TrimPrefix(recvT, "*")) {
+						builds = true
+					}
+				}
+				return true
+			})
+			if !builds {
+				continue
+			}
+			ast.Inspect(g.Body(), func(n ast.Node) bool {
+				if _, ok := n.(*ast.GoStmt); ok {
+					hasWorker = true
+				}
+				return true
+			})
+		}
+		if !hasWorker {
+			continue
+		}
+		e := newE3(p, fn, []Ev{
+			{Name: "join", Match: func(i *types.Info, call *ast.CallExpr) bool {
+				sel, ok := unparen(call.Fun).(*ast.SelectorExpr)
+				return ok && sel.Sel.Name == "Wait" && strings.HasSuffix(types.TypeString(i.TypeOf(sel.X), nil), "sync.WaitGroup")
+			}, MatchNode: func(i *types.Info, n ast.Node) bool {
+				es, ok := n.(*ast.ExprStmt)
+				if !ok {
+					return false
+				}
+				u, ok := unparen(es.X).(*ast.UnaryExpr)
+				return ok && u.Op == token.ARROW
+			}},
+			{Name: "release", Match: isRelease},
+		})
+		for _, rel := range e.Calls("release") {
+			b, _ := e.Before(rel, "join")
+			c.Check(b&eNo == 0 && b != 0, "shard-buffer-released-after-join", "pkg/store."+fn.Name, p.Pos(rel.Pos()), "buffer-released-before-join",
+				"the shard matcher's buffer is returned to the pool on a path where the receive goroutine has not been joined "+evBitsString(b)+": it may still be hashing labels into that buffer while another request takes it from the pool")
 		}
 	}
 }
